@@ -9,6 +9,13 @@ theorem isWs_of_isDigit {c : Char} (h : c.isDigit = true) : isWs c = false := by
   have h2 : c.toNat ≤ 57 := h.2
   omega
 
+theorem isWsI_of_isDigit {c : Char} (h : c.isDigit = true) : isWsI c = false := by
+  simp [Char.isDigit] at h
+  simp [isWsI]
+  have h1 : 48 ≤ c.toNat := h.1
+  have h2 : c.toNat ≤ 57 := h.2
+  omega
+
 theorem isWsB_of_isDigit {c : Char} (h : c.isDigit = true) : isWsB c = false := by
   simp [Char.isDigit] at h
   simp [isWsB]
@@ -83,7 +90,7 @@ theorem pyIntW_toDigits {w : Char → Bool} (hw : ∀ c, c.isDigit = true → w 
     pyIntW w (Nat.toDigits 10 n) = some (n : Int) := by
   rw [pyInt_digits hw _ (toDigits_allDigits n) (by simp), Nat.ofDigitChars_ten_toDigits]
 
-theorem pyInt_toDigits (n : Nat) : pyInt (Nat.toDigits 10 n) = some (n : Int) := pyIntW_toDigits (fun _ => isWs_of_isDigit) n
+theorem pyInt_toDigits (n : Nat) : pyInt (Nat.toDigits 10 n) = some (n : Int) := pyIntW_toDigits (fun _ => isWsI_of_isDigit) n
 theorem pyIntB_toDigits (n : Nat) : pyIntB (Nat.toDigits 10 n) = some (n : Int) := pyIntW_toDigits (fun _ => isWsB_of_isDigit) n
 
 
@@ -172,7 +179,7 @@ theorem contentLengthW_digits {w : Char → Bool} (hw : ∀ c, c.isDigit = true 
     simp at hne; subst hne
     rw [pyIntW_toDigits hw]; simp
 
-theorem contentLength_digits (n : Nat) : contentLength (some (Nat.toDigits 10 n)) = .ok n := contentLengthW_digits (fun _ => isWs_of_isDigit) n
+theorem contentLength_digits (n : Nat) : contentLength (some (Nat.toDigits 10 n)) = .ok n := contentLengthW_digits (fun _ => isWsI_of_isDigit) n
 theorem contentLengthB_digits (n : Nat) : contentLengthB (some (Nat.toDigits 10 n)) = .ok n := contentLengthW_digits (fun _ => isWsB_of_isDigit) n
 
 theorem contentLengthW_ok_nonneg {w : Char → Bool} (v : Option Str) (n : Int) (h : contentLengthW w v = .ok n) : 0 ≤ n := by
